@@ -625,9 +625,29 @@ fn main_random(args: &[String]) {
                     if kind == "host" {
                         hosts.push(run.n);
                     }
-                } else if x < 30 && !hosts.is_empty() {
+                } else if x < 22 && !hosts.is_empty() {
                     let h = hosts[rng.random_range(0..hosts.len())];
                     run.crash(h);
+                } else if x < 30 && !hosts.is_empty() {
+                    // repeated fault calls on one host: crash, downtime, crash again, downtime, bounce
+                    let h = hosts[rng.random_range(0..hosts.len())];
+                    run.crash(h);
+                    for _ in 0..rng.random_range(0..=2) {
+                        if !run.dead {
+                            run.step();
+                        }
+                    }
+                    if rng.random_bool(0.7) {
+                        run.crash(h);
+                    } else {
+                        run.bounce(h);
+                    }
+                    for _ in 0..rng.random_range(0..=2) {
+                        if !run.dead {
+                            run.step();
+                        }
+                    }
+                    run.bounce(h);
                 } else if x < 45 && !hosts.is_empty() {
                     let h = hosts[rng.random_range(0..hosts.len())];
                     run.bounce(h);
